@@ -29,7 +29,7 @@ func init() {
 	Register("C33", &Info{
 		Run:   runC33,
 		Quick: 10000, Thor: 1000000,
-		Rule: "a world = one fingerprint (every parrot by stratum, randomized, generated specs, HelloGolang) and version, whose peer is made hostile in one of two ways: (a) the server's byte stream is corrupted at the transport - bit flips, byte runs overwritten with drawn garbage, truncation, reset, an oversized record header, random records injected - at an offset drawn over the whole server flight and the first application records; (b) the reference server mutates one plaintext handshake message before hashing and encrypting it (ServerHello incl. HelloRetryRequest with cookie, EncryptedExtensions incl. ALPS, Certificate, CompressedCertificate, CertificateVerify, Finished, NewSessionTicket, TLS 1.2 ServerKeyExchange/ServerHelloDone): byte flips, truncation, extension, inner length fields set to extreme values, with the outer length fixed up or not, a well-formed but unsolicited extension of a drawn known type (early_data, cookie, key_share, pre_shared_key, ALPS, ECH, ...) inserted into the extension block of ServerHello / EncryptedExtensions / Certificate entry / CertificateRequest / NewSessionTicket with every enclosing length fixed up, (every tenth world enumerates message type x extension code point x body shape by run index) or a CompressedCertificate whose stream is valid up to the declared length and then goes on decompressing into 48 MB; (c) every fifth world: the reference server completes a genuine handshake and then misbehaves under the negotiated keys - floods of zero-length application_data records (10 .. 150000), KeyUpdate storms with and without update_requested, HelloRequest runs under TLS 1.2, a correctly keyed CBC record whose plaintext is padding only (TLS 1.0-1.2), (the client's renegotiation support drawn: never / once / freely), unexpected handshake messages of drawn types - optionally while the client's own transport writes fail once, fail for good, or block (peer stops reading); the client then keeps using the connection (Read x3, Write, Read, Close); the client runs Handshake and then Read under a 30 s deadline; oracle: no panic in any task, the world neither deadlocks nor hits the step cap and every client call returns by the deadline, and the bytes allocated while the connection runs stay below 6 MB (the largest legitimate message is a 256 kB certificate message); non-trivial = the mutated bytes were consumed by the client; distinct = (fingerprint, hostile mode, target, mutation, offset class)",
+		Rule: "a world = one fingerprint (every parrot by stratum, randomized, generated specs, HelloGolang) and version, whose peer is made hostile in one of two ways: (a) the server's byte stream is corrupted at the transport - bit flips, byte runs overwritten with drawn garbage, truncation, reset, an oversized record header, random records injected - at an offset drawn over the whole server flight and the first application records; (b) the reference server mutates one plaintext handshake message before hashing and encrypting it (ServerHello incl. HelloRetryRequest with cookie, EncryptedExtensions incl. ALPS, Certificate, CompressedCertificate, CertificateVerify, Finished, NewSessionTicket, TLS 1.2 ServerKeyExchange/ServerHelloDone): byte flips, truncation, extension, inner length fields set to extreme values, with the outer length fixed up or not, a well-formed but unsolicited extension of a drawn known type (early_data, cookie, key_share, pre_shared_key, ALPS, ECH, ...) inserted into the extension block of ServerHello / EncryptedExtensions / Certificate entry / CertificateRequest / NewSessionTicket with every enclosing length fixed up, (every tenth world enumerates message type x extension code point x body shape by run index) or a CompressedCertificate whose stream is valid up to the declared length and then goes on decompressing into 48 MB; (c) every fifth world: the reference server completes a genuine handshake and then misbehaves under the negotiated keys - floods of zero-length application_data records (10 .. 150000), KeyUpdate storms with and without update_requested, HelloRequest runs under TLS 1.2, a correctly keyed CBC record whose plaintext is padding only (TLS 1.0-1.2), (the client's renegotiation support drawn: never / once / freely), unexpected handshake messages of drawn types - optionally while the client's own transport writes fail once, fail for good, or block (peer stops reading); the client then keeps using the connection (Read x3, Write, Read, Close); (d) every twentieth world: the reference server completes a genuine handshake but issues an odd session ticket (zero-length, one byte, 65000 bytes, garbage) and a second connection over the same session cache follows; the client runs Handshake and then Read under a 30 s deadline; oracle: no panic in any task, the world neither deadlocks nor hits the step cap and every client call returns by the deadline, and the bytes allocated while the connection runs stay below 6 MB (the largest legitimate message is a 256 kB certificate message); non-trivial = the mutated bytes were consumed by the client; distinct = (fingerprint, hostile mode, target, mutation, offset class)",
 		Assumptions: []string{"mutation-based, not coverage-guided", "the worker process runs with a 32 MB goroutine stack limit (debug.SetMaxStack)", "allocation is measured as runtime.MemStats.TotalAlloc growth of the whole worker process during the world (client, server and harness together)"},
 		Real:        []string{"utls client from /repo"},
 		Stub:        []string{"hostile peers: corrupted utls/std server streams; reference server with message mutation", "transport, clock, crypto/rand"},
@@ -257,6 +257,10 @@ func runC33(c *Ctx) {
 	capStack()
 	if c.Run%5 == 4 {
 		runC33Post(c)
+		return
+	}
+	if c.Run%20 == 3 {
+		runC33Tickets(c)
 		return
 	}
 	ch := c.Ch
